@@ -825,6 +825,31 @@ fill_yly_ymd_all_d(
 	return;
 }
 
+static bool
+pos_selected_p(const bitint383_t *poss, size_t k, size_t n)
+{
+/* is the K-th (1-based) of N elements of a period picked by BYSETPOS */
+	int pos;
+
+	for (bitint_iter_t posi = 0UL;
+	     (pos = bi383_next(&posi, poss), posi);) {
+		if (pos > 0 && (size_t)pos == k ||
+		    pos < 0 && n + 1U == k + (size_t)(-pos)) {
+			return true;
+		}
+	}
+	return false;
+}
+
+static size_t
+cnt_cands(const bitint383_t *cand)
+{
+	size_t n = 0U;
+
+	for (bitint_iter_t ci = 0UL; (bi383_next(&ci, cand), ci); n++);
+	return n;
+}
+
 static void
 clr_poss(bitint383_t *restrict cand, const bitint383_t *poss)
 {
@@ -1008,6 +1033,9 @@ rrul_fill_yly(echs_instant_t *restrict tgt, size_t nti, rrulsp_t rr)
 	size_t nd;
 	size_t res = 0UL;
 	size_t tries;
+	/* BYSETPOS over date/time combinations */
+	bool posp = false;
+	size_t npos = 0U, ipos = 0U;
 	uint8_t wd_mask = 0U;
 	bool ymdp;
 	struct enum_s e;
@@ -1147,8 +1175,18 @@ rrul_fill_yly(echs_instant_t *restrict tgt, size_t nti, rrulsp_t rr)
 			fill_yly_ymd(cand, srcsca, y, m, nm, d, nd, wd_mask);
 		}
 
-		/* limit by setpos */
-		clr_poss(cand, &rr->pos);
+		/* limit by setpos, the positions count the instances of the
+		 * period, so when every date is expanded into several times
+		 * of day we have to do it while going through them below */
+		with (const size_t nT = (size_t)e.nH * e.nM * e.nS) {
+			posp = nT > 1U && bi383_has_bits_p(&rr->pos);
+			if (!posp) {
+				clr_poss(cand, &rr->pos);
+			} else {
+				npos = cnt_cands(&cand[YSET(0)]) * nT;
+				ipos = 0U;
+			}
+		}
 
 		/* do the shifts */
 		shift(cand, y, rr->shift);
@@ -1175,6 +1213,11 @@ rrul_fill_yly(echs_instant_t *restrict tgt, size_t nti, rrulsp_t rr)
 						.ms = proto.ms,
 					};
 
+					if (posp && !iy && !pos_selected_p(
+						    &rr->pos, ++ipos, npos)) {
+						/* not one of the chosen */
+						continue;
+					}
 					if (UNLIKELY(echs_instant_lt_p(until, x))) {
 						goto fin;
 					}
@@ -1211,6 +1254,9 @@ rrul_fill_mly(echs_instant_t *restrict tgt, size_t nti, rrulsp_t rr)
 	size_t nd;
 	size_t res = 0UL;
 	size_t tries;
+	/* BYSETPOS over date/time combinations */
+	bool posp = false;
+	size_t npos = 0U, ipos = 0U;
 	uint8_t wd_mask = 0U;
 	bool ymdp;
 	struct enum_s e;
@@ -1359,8 +1405,18 @@ rrul_fill_mly(echs_instant_t *restrict tgt, size_t nti, rrulsp_t rr)
 			fill_mly_ymd(cand, srcsca, y, m, d, nd, wd_mask);
 		}
 
-		/* limit by setpos */
-		clr_poss(cand, &rr->pos);
+		/* limit by setpos, the positions count the instances of the
+		 * period, so when every date is expanded into several times
+		 * of day we have to do it while going through them below */
+		with (const size_t nT = (size_t)e.nH * e.nM * e.nS) {
+			posp = nT > 1U && bi383_has_bits_p(&rr->pos);
+			if (!posp) {
+				clr_poss(cand, &rr->pos);
+			} else {
+				npos = cnt_cands(&cand[YSET(0)]) * nT;
+				ipos = 0U;
+			}
+		}
 
 		/* do the shifts */
 		shift(cand, y, rr->shift);
@@ -1387,6 +1443,11 @@ rrul_fill_mly(echs_instant_t *restrict tgt, size_t nti, rrulsp_t rr)
 						.ms = proto.ms,
 					};
 
+					if (posp && !iy && !pos_selected_p(
+						    &rr->pos, ++ipos, npos)) {
+						/* not one of the chosen */
+						continue;
+					}
 					if (UNLIKELY(echs_instant_lt_p(until, x))) {
 						goto fin;
 					}
